@@ -54,6 +54,15 @@ def build_workspace(repo, wd, cfg):
     os.makedirs(os.path.join(ws, '.cargo'))
     with open(os.path.join(ws, '.cargo', 'config.toml'), 'w') as f:
         f.write('[net]\noffline = true\n')
+    # optional pre-build hook(s): one command or a list of commands, run from /verif after the workspace is
+    # laid out ({repo}, {ws}, {verif} substituted).  Used for mechanical extraction into an extra crate and for
+    # files the copy above leaves out.  A non-zero exit is a lost anchor (undecided), never a pass.
+    pregen = cfg.get('pregen') or []
+    for cmd in ([pregen] if pregen and isinstance(pregen[0], str) else pregen):
+        cmd = [a.replace('{repo}', repo).replace('{ws}', ws).replace('{verif}', VERIF) for a in cmd]
+        rc, out, _, _ = sh(cmd, cwd=VERIF, timeout=600)
+        if rc != 0:
+            return None, 'lost anchor: pregen %s failed: %s' % (' '.join(cmd), out[-800:]), []
     appended = []
     for ap in cfg.get('append', []):
         dst = os.path.join(ws, ap['file'])
@@ -137,12 +146,12 @@ def run_unit(repo, unit, cfg, wd, tier='quick', prop=None):
         with ThreadPoolExecutor(int(os.environ.get('VERIF_KANI_JOBS', '6'))) as ex:
             results += list(ex.map(lambda h: run_harness(ws, cfg, h, target_dir, tier), hs[1:]))
     import hashlib
-    for ap in cfg.get('append', []):
+    for ap in cfg.get('append', []) + cfg.get('extracted', []):  # 'extracted': items a pregen hook copies verbatim
         src = open(os.path.join(repo, ap['file'])).read()
         for fn in ap.get('functions', []):
             res['functions'].append({'unit': unit, 'file': ap['file'], 'item': fn, 'sha256': hashlib.sha256(src.encode()).hexdigest(),
                                      'tags': sorted({t for h in cfg['harnesses'] for t in h['tags']}), 'external_body': False,
-                                     'substitutions': [], 'kind': 'kani-real-crate'})
+                                     'substitutions': [], 'kind': ap.get('kind', 'kani-real-crate')})
     res['assumptions'] = list(cfg.get('assumptions', [])) + [
         'color-eyre replaced by a message-free shim (kani/shims/color-eyre): error *values* are not inspected',
         'Kani/CBMC: termination not proved; unwinding assertions on']
@@ -180,7 +189,7 @@ def run_unit(repo, unit, cfg, wd, tier='quick', prop=None):
                                       'message': 'Kani: %s (%s) in harness %s' % (c['description'], c['location'], h['name']),
                                       'rendered': '\n'.join('%s: %s [%s] %s' % (x['id'], x['status'], x['description'], x['location'])
                                                             for x in r['checks'] if x['status'] != 'SUCCESS')[:4000],
-                                      'backend': 'kani', 'file': (cfg.get('append') or [{}])[0].get('file'),
+                                      'backend': 'kani', 'file': (cfg.get('append') or cfg.get('extracted') or [{}])[0].get('file'),
                                       'counterexample': cex or None, 'harness': h['name']})
         else:
             hinfo['status'] = 'UNDECIDED'
